@@ -156,6 +156,36 @@ func sizeClass(n int) string {
 	}
 }
 
+// deepEntry is a chain of depth single-child directories ending in a file
+// (depth 0 = just the file). Every directory level costs two levels of
+// protobuf nesting (the entry and its map element).
+func deepEntry(r *rand.Rand, depth int) *core.Entry {
+	e := &core.Entry{Kind: core.EntryKind_File, Digest: randBytes(r, 20, false), Executable: r.Intn(2) == 0}
+	for i := 0; i < depth; i++ {
+		e = &core.Entry{Kind: core.EntryKind_Directory, Contents: map[string]*core.Entry{fmt.Sprintf("d%d", i%10): e}}
+	}
+	return e
+}
+
+// maxNestingDepth keeps deeply nested messages well below protobuf-go's
+// default recursion limit of 10000 levels (2 levels per directory plus the
+// enclosing request/change/archive messages), which the unchanged decoder uses.
+const maxNestingDepth = 2000
+
+var nestingDepths = []int{0, 1, 2, 10, 24, 25, 48, 49, 50, 51, 60, 99, 100, 101, 150, 200, 500, 1000, 1999, maxNestingDepth}
+
+// deepMessage is a real protocol message carrying an entry tree of the given depth.
+func deepMessage(r *rand.Rand, depth int) proto.Message {
+	switch r.Intn(3) {
+	case 0:
+		return &remote.EndpointRequest{Transition: &remote.TransitionRequest{Transitions: []*core.Change{{Path: "p", New: deepEntry(r, depth)}}}}
+	case 1:
+		return &remote.EndpointRequest{Transition: &remote.TransitionRequest{Transitions: []*core.Change{{Path: "p", Old: deepEntry(r, depth), New: deepEntry(r, depth/2)}}}}
+	default:
+		return &remote.TransitionResponse{Results: []*core.Archive{{Content: deepEntry(r, depth)}, {}}}
+	}
+}
+
 // randMessage draws a real protocol message. class: 0 empty, 1 tiny, 2 medium,
 // 3 around the 64 KiB buffer boundaries, 4 >= 1 MiB.
 func randMessage(r *rand.Rand, class int, maxLarge int) proto.Message {
@@ -276,12 +306,13 @@ func randMessage(r *rand.Rand, class int, maxLarge int) proto.Message {
 // ---------------------------------------------------------------- one case
 
 type c22Case struct {
-	Index int
-	Alg   compression.Algorithm
-	Style int
-	Seed  int64
-	msgs  []proto.Message
-	flush []int // number of Flush calls after message i (0 = none)
+	Index  int
+	Alg    compression.Algorithm
+	Style  int
+	Seed   int64
+	msgs   []proto.Message
+	flush  []int // number of Flush calls after message i (0 = none)
+	depths []int // directory-chain depths of the deeply nested messages in msgs
 }
 
 func (c *c22Case) describe() map[string]any {
@@ -292,7 +323,7 @@ func (c *c22Case) describe() map[string]any {
 	if len(shape) > 40 {
 		shape = append(shape[:40], fmt.Sprintf("... %d more", len(shape)-40))
 	}
-	return map[string]any{"case": c.Index, "algorithm": c.Alg.String(), "fragment_style": c.Style, "pipe_seed": c.Seed, "messages(type/size/flushes)": shape}
+	return map[string]any{"case": c.Index, "nesting_depths": c.depths, "algorithm": c.Alg.String(), "fragment_style": c.Style, "pipe_seed": c.Seed, "messages(type/size/flushes)": shape}
 }
 
 func genC22Case(r *rand.Rand, index int, largeEvery int, quick bool) *c22Case {
@@ -322,7 +353,20 @@ func genC22Case(r *rand.Rand, index int, largeEvery int, quick bool) *c22Case {
 				wantLarge = false
 			}
 		}
-		c.msgs = append(c.msgs, randMessage(r, class, maxLarge))
+		var m proto.Message
+		if (index/2)%4 == 1 && (r.Intn(n) == 0 || i == n-1) || r.Intn(40) == 0 {
+			// deeply nested entry trees: every fourth pair of cases carries at
+			// least one, with a depth from the fixed list or a random one
+			depth := nestingDepths[r.Intn(len(nestingDepths))]
+			if r.Intn(3) == 0 {
+				depth = r.Intn(maxNestingDepth + 1)
+			}
+			m = deepMessage(r, depth)
+			c.depths = append(c.depths, depth)
+		} else {
+			m = randMessage(r, class, maxLarge)
+		}
+		c.msgs = append(c.msgs, m)
 		f := 0
 		switch index % 5 {
 		case 0: // flush after every message, like request/response traffic
@@ -520,6 +564,22 @@ func runC22Case(r *vk.Run, s *c22Session, c *c22Case) bool {
 		}
 		r.Count("messages_"+sizeClass(proto.Size(c.msgs[i])), 1)
 	}
+	for _, d := range c.depths {
+		r.Count("nested_messages_decoded", 1)
+		if d >= 50 {
+			r.Count("nested_messages_decoded_depth>=50", 1)
+		}
+		if d >= 1000 {
+			r.Count("nested_messages_decoded_depth>=1000", 1)
+		}
+		b := 0
+		for _, t := range []int{1, 10, 50, 100, 500, 1000, 2000} {
+			if d >= t {
+				b = t
+			}
+		}
+		r.Distinct(fmt.Sprintf("nesting|%s|>=%d", c.Alg, b))
+	}
 	return true
 }
 
@@ -691,6 +751,18 @@ func c22() {
 		}
 		// Deterministic hand-made cases at the end: empty-only, empty/large/empty, tiny with 1-byte fragments.
 		k := index - n
+		if k >= 6 {
+			// every depth of the fixed list, flushed one by one
+			alg := fixedAlgs[k-6]
+			rr := r.Rand(fmt.Sprintf("nesting-%d", k))
+			c := &c22Case{Index: index, Alg: alg, Style: 3, Seed: rr.Int63()}
+			for _, d := range nestingDepths {
+				c.msgs = append(c.msgs, deepMessage(rr, d))
+				c.flush = append(c.flush, 1)
+				c.depths = append(c.depths, d)
+			}
+			return c
+		}
 		alg := fixedAlgs[k/3]
 		rr := r.Rand(fmt.Sprintf("fixed-%d", k))
 		switch k % 3 {
@@ -703,7 +775,7 @@ func c22() {
 			return &c22Case{Index: index, Alg: alg, Style: 1, Seed: rr.Int63(), msgs: []proto.Message{&remote.EndpointRequest{Poll: &remote.PollRequest{}}, &remote.PollCompletionRequest{}}, flush: []int{1, 1}}
 		}
 	}
-	total := n + 6
+	total := n + 8
 
 	// Static partition: worker w runs the cases i = w (mod workers) in order,
 	// each algorithm through its own long-lived stream, so a run is a pure
@@ -754,5 +826,5 @@ func c22() {
 	stopProfile()
 	r.Assume("the writer and reader stacks are rebuilt in the monitor with the same constructors, order and 64 KiB buffer sizes as remote.NewEndpoint/ServeEndpoint (the sizes are unexported constants)")
 	r.Assume("zstandard is not built into this binary (SSPL tag off); algorithms none and deflate are covered")
-	r.Finish("random sequences of real control-stream messages (empty, tiny, medium, 32/64/128 KiB boundary, >= 1 MiB) with random flush points over a pipe with 5 fragmentation styles, both algorithms, plus crafted oversize length prefixes; distinct = (algorithm, fragmentation style, type and size class of the message at the flush point, messages since previous flush, flushes) for flush points where every written message had been decoded before the reader starved, plus (algorithm, size, style) of rejected oversize prefixes", 40)
+	r.Finish("random sequences of real control-stream messages (empty, tiny, medium, 32/64/128 KiB boundary, >= 1 MiB, entry trees nested 0..2000 directories deep) with random flush points over a pipe with 5 fragmentation styles, both algorithms, plus crafted oversize length prefixes; distinct = (algorithm, fragmentation style, type and size class of the message at the flush point, messages since previous flush, flushes) for flush points where every written message had been decoded before the reader starved, plus (algorithm, size, style) of rejected oversize prefixes", 40)
 }
